@@ -65,7 +65,7 @@ def read_host_cache():
     """If possible, read the cache file from disk to populate hosts that
        were found in a previous sshuttle run."""
     try:
-        f = open(CACHEFILE)
+        f = open(CACHEFILE, errors='replace')
     except (OSError, IOError):
         _, e = sys.exc_info()[:2]
         if e.errno == errno.ENOENT:
@@ -90,19 +90,31 @@ def read_host_cache():
         SHOULD_WRITE_CACHE = False
 
 
+def _representable(name, ip):
+    """Can the client put this pair into its hosts file?"""
+    return (re.match(r'[-A-Za-z0-9_.]{1,253}\Z', name) is not None and
+            re.match(r'[0-9]{1,3}\.[0-9]{1,3}\.[0-9]{1,3}\.[0-9]{1,3}\Z', ip)
+            is not None)
+
+
 def found_host(name, ip):
     """The provided name maps to the given IP. Add the host to the
        hostnames list, send the host to the sshuttle client via
        stdout, and write the host to the cache file.
     """
     hostname = re.sub(r'\..*', '', name)
-    hostname = re.sub(r'[^-\w\.]', '_', hostname)
+    hostname = re.sub(r'[^-\w\.]', '_', hostname, flags=re.ASCII)
     if (ip.startswith('127.') or ip.startswith('255.') or
             hostname == 'localhost'):
         return
 
     if hostname != name:
         found_host(hostname, ip)
+
+    if not _representable(name, ip):
+        # skip it rather than send something the client cannot use
+        debug2('Ignoring unrepresentable host %r: %r' % (name, ip))
+        return
 
     global SHOULD_WRITE_CACHE
     oldip = hostnames.get(name)
@@ -118,7 +130,7 @@ def _check_etc_hosts():
     filename = '/etc/hosts'
     debug2(' > Reading %s on remote host' % filename)
     try:
-        for line in open(filename):
+        for line in open(filename, errors='replace'):
             line = re.sub(r'#.*', '', line)  # remove comments
             words = line.strip().split()
             if not words:
